@@ -95,27 +95,60 @@ fn use_name<O: Octets + Clone>(what: &str, n: &ParsedName<O>, t: &mut T) -> Case
     vensure!(hash_of(n) == hash_of(&flat), "parsedname-hash-flat", "{what}: hash differs from flat copy");
     let _ = n.first();
     let _ = n.is_root();
+    // Every name derived from `n` (suffixes, after split_first, after parent)
+    // is a returned name too: it must support the same operations, and it must
+    // be the expected suffix of the label sequence.
+    let want_suffix = |k: usize| -> Vec<u8> { labels[k..].iter().flat_map(|l| std::iter::once(l.len() as u8).chain(l.iter().copied())).collect() };
     let mut steps = 0;
-    for s in n.iter_suffixes() {
+    for (k, s) in n.iter_suffixes().enumerate() {
         steps += 1;
         vensure!(steps <= 130, "parsedname-suffixes-unbounded", "{what}");
-        let _ = s.label_count();
+        derived(what, "suffix", &s, &want_suffix(k.min(labels.len() - 1)))?;
     }
     let mut cur = n.clone();
     let mut steps = 0;
-    while let Some(_l) = cur.split_first() {
+    loop {
+        let got_label = cur.split_first().is_some();
+        if !got_label {
+            break;
+        }
         steps += 1;
         vensure!(steps <= 130, "parsedname-split-first-unbounded", "{what}");
+        derived(what, "after-split_first", &cur, &want_suffix(steps.min(labels.len() - 1)))?;
     }
     let mut cur = n.clone();
     let mut steps = 0;
     while cur.parent() {
         steps += 1;
         vensure!(steps <= 130, "parsedname-parent-unbounded", "{what}");
+        derived(what, "after-parent", &cur, &want_suffix(steps.min(labels.len() - 1)))?;
     }
     let shown = show("name", n)?;
     let _ = show_dbg("name", n)?;
     let _ = writeln!(t.last_mut().unwrap(), " name={shown}");
+    Ok(())
+}
+
+
+/// Operations on a name derived from a returned name.
+fn derived<O: Octets>(what: &str, how: &str, d: &ParsedName<O>, want_wire: &[u8]) -> CaseResult {
+    let _ = d.first();
+    let _ = d.is_root();
+    let _ = d.label_count();
+    let mut got: Vec<u8> = vec![];
+    let mut steps = 0;
+    for l in d.iter() {
+        steps += 1;
+        vensure!(steps <= 130, "parsedname-iter-unbounded", "{what}: {how}: iteration unbounded");
+        got.push(l.len() as u8);
+        got.extend_from_slice(l.as_slice());
+    }
+    vensure!(got == want_wire, format!("parsedname-derived-differs:{how}"), "{what}: name {how} iterates as {got:?}, expected {want_wire:?}");
+    let flat: Name<Vec<u8>> = d.to_name();
+    vensure!(flat.as_slice() == want_wire, format!("parsedname-derived-to_name:{how}"), "{what}: {how}: to_name gives {:?} want {want_wire:?}", flat.as_slice());
+    vensure!(*d == flat, format!("parsedname-derived-eq-flat:{how}"), "{what}: {how}: derived name != its flat copy");
+    vensure!(hash_of(d) == hash_of(&flat), format!("parsedname-derived-hash:{how}"), "{what}: {how}: hash differs from flat copy");
+    let _ = show("derived-name", d)?;
     Ok(())
 }
 
@@ -665,6 +698,42 @@ fn run_rdata(data: &[u8], ctx: &mut Ctx) -> CaseResult {
     run_on(&a.buf, &["near-valid-rdata"], order, true, 0, ctx)
 }
 
+
+/// Near-valid SVCB/HTTPS: well-framed SvcParams (keys ascending, lengths
+/// consistent, RDLENGTH consistent) whose VALUES violate the per-key format
+/// (ipv6hint of 4/8/12/20 octets, ipv4hint of 3/5, port of 1/3 octets, alpn
+/// with broken inner lengths, mandatory of odd length / unsorted / self
+/// reference, non-empty no-default-alpn, dohpath with invalid UTF-8 ...). The
+/// frame passes every outer check, so parsing, iteration of the typed
+/// values, comparison and all Display forms see the hostile values.
+fn run_svcb(data: &[u8], ctx: &mut Ctx) -> CaseResult {
+    let mut u = Unstructured::new(data);
+    let order = byte(&mut u);
+    let mut a = wire::Asm::new(u16_(&mut u), 0x8180);
+    a.question(&[b"svc".to_vec(), b"example".to_vec()], 64, 1);
+    for _ in 0..1 + pick(&mut u, 2) {
+        let mut rd = u16_(&mut u).to_be_bytes().to_vec();
+        rd.extend(gn::to_wire(&gn::name(&mut u, true)));
+        let mut keys: Vec<u16> = (0..1 + pick(&mut u, 5)).map(|_| if chance(&mut u, 220) { pick(&mut u, 10) as u16 } else { u16_(&mut u) }).collect();
+        keys.sort();
+        keys.dedup();
+        for k in keys {
+            let n = match pick(&mut u, 6) {
+                0 => 0,
+                1 => pickb(&mut u, &[1, 2, 3, 4, 5, 8, 12, 15, 16, 17, 20, 32, 33]) as usize,
+                _ => pick(&mut u, 24),
+            };
+            let v: Vec<u8> = (0..n).map(|_| match pick(&mut u, 4) { 0 => pickb(&mut u, &[0, 1, 2, 3, 0xFF, 0xC0, 0x80, b',', b'\\', b'"']), _ => byte(&mut u) }).collect();
+            rd.extend_from_slice(&k.to_be_bytes());
+            rd.extend_from_slice(&(v.len() as u16).to_be_bytes());
+            rd.extend(v);
+        }
+        let rtype = if flag(&mut u) { 64 } else { 65 };
+        a.record(1, &[b"svc".to_vec(), b"example".to_vec()], rtype, 1, 300, &rd);
+    }
+    run_on(&a.buf, &["near-valid-svcb"], order, true, 0, ctx)
+}
+
 /// Large messages: sizes around 0x3FFF/0x4000 and up to 65535 octets,
 /// valid or mutated.
 fn run_big(data: &[u8], ctx: &mut Ctx) -> CaseResult {
@@ -713,6 +782,7 @@ pub fn prop() -> Prop {
             SubCheck::new("big", run_big, 6_000, 200_000, 400),
             SubCheck::new("opt", run_opt, 150_000, 4_000_000, 300),
             SubCheck::new("rdata", run_rdata, 250_000, 6_000_000, 600),
+            SubCheck::new("svcb", run_svcb, 150_000, 4_000_000, 300),
         ],
         health: Some(health),
         extra: None,
